@@ -12,6 +12,21 @@ CHECKS = {
         note="4 known findings (C16-1..4): re-added / colliding definition names duplicate definitions and change ids; state after a failed batch. C16_split_independent is _partial. Trusted: Coq kernel + vm_compute (no axioms), hand model Space.v tied per call to verif_dump, python trace derivation.",
         technique="Coq proof over an executable model of TypeSpace id allocation (converter and break_cycles universally quantified) + per-call replay of real histories in the model + direct evaluation of the four clauses on the public API",
         design="DESIGN 4 C16, notes/C16.md"),
+    "C13": dict(
+        text="proof - Coq theorems over executable models of convert_rust_extension/name_match and of semver 1.0.26's matcher, unbounded in versions, requirement ASTs, crate tables, paths and policies; the matcher is proved equal to an independent interval specification of Cargo's documented semantics on all release versions and on all versions for requirements written with full versions",
+        note="models tied on every run to the real pipeline (2.9k-case decision table) and to the real semver crate (87k pairs); parsers (serde, VersionReq::parse) are inputs; no axioms; one known finding C13-F1 (unvalidated extension path)",
+        technique="verified algorithm model + independent specification + correspondence + oracle from the text",
+        design="DESIGN 4 C13, notes/C13.md"),
+    "C15": dict(
+        text="proof (Coq, no axioms) of the crate-spec parsers, output_path/set_extension, TypeAndImpls and the three option mappings onto TypeSpaceSettings for all strings / option records and all hash-map iteration orders; token-for-token equality of the three real front-ends established by execution on every run (correspondence), stated as such",
+        note="C15_cli_accepts_valid_spec holds for every is_crate class accepting [A-Za-z0-9]; the check measures the class on the implementation each run (C15-1: digits rejected while is_alphabetic is used); macro agreement assumes distinct original crate names (C15-3 exhibited); macro map_type unusable (C15-2). Partial: the real front-end binaries agreeing token for token is established by execution, not by theorem.",
+        technique="executable Gallina model + universally quantified theorems; section variables for semver parsing, Unicode class (measured on the implementation), hash orders; correspondence on 5k-15k spec strings, std set_extension, real setters; execution of builder / cargo-typify binary / import_types! expansion with syn-level comparison",
+        design="DESIGN 4 C15, notes/C15.md"),
+    "C19": dict(
+        text="proof - Coq theorems for all type spaces, settings and entries over a model of the derive/visibility/impl surface whose literals are regenerated from type_entry.rs each run; model = emitted code on every type of the world (K4); the property's trait-bound assertions compiled by rustc for every type of the world (K6)",
+        note="No axioms. `derivable`'s std/serde impl table and the control flow around the table are modelled (tied by K4/K6); user-requested derives are outside the claim.",
+        technique="syn table translator + Gallina model + vm_compute-over-finite-kinds lifted by structural lemmas; translation validation of the emitted module against the model; compile-time bound assertions",
+        design="DESIGN 4 C19, notes/C19.md"),
 }
 
 NOT_YET = "not yet built in this round (planned, see DESIGN.md section 7)"
